@@ -228,6 +228,9 @@ func (n *Node) Start(opts ...StartOpts) error {
 			return err
 		}
 		btcReal = cw
+	} else if n.Cfg.BtcAdapter == "lnd" {
+		// the real lnd wallet adapter over fakes of the lightning and wallet-kit rpc interfaces
+		btcReal = n.BtcW.newLNDWallet(inc)
 	}
 	btcWallet := &walletWrap{inc: inc, chain: "btc", real: btcReal}
 	btcVal := &validatorWrap{inc: inc, chain: "btc", real: n.BtcW.onchain}
